@@ -19,6 +19,7 @@ RULE = ("Histories over 19 operations {rewrite same size, rewrite other size, to
         "both), '*'} after an initial plain GET: exhaustive to length 3 (thorough 4), random length 7 beyond; targets Files:/f.txt, Pages:/p (-> p.html), "
         "Pages:/sub/ (-> index.html); both interfaces; process time zone rotated over UTC, America/Los_Angeles, Asia/Kolkata, Pacific/Kiritimati, Etc/GMT+12. Non-trivial = history with >=1 modification between a response and the reuse of its validators; "
         "exhaustive histories are distinct by construction.")
+RULE += ' Also: replacement by a file of another size whose mtime was carried over (only ctime moves), If-None-Match lists with empty members and with a comma inside a tag, conditional requests sent as GET or HEAD, apps with every cacheability / max_age setting.'
 ASSUMPTIONS = [
     "file timestamps come from a virtual clock (os.stat is wrapped for sandbox paths only); content is really written to disk",
     "same-size rewrites that move the timestamps by less than a second are unconstrained (the statement exempts them)",
